@@ -58,6 +58,11 @@ func KitchenSink(packageRoot string) *Schema {
 	rec("KeyPart", nil, F("a", P("string")), F("b", P("int64")))
 	rec("ParamPart", nil, F("p", P("string")), Opt("q", P("int32")))
 	s.Add(&TypeDef{Kind: "complexkey", Name: "CK", Namespace: ns, Key: q("KeyPart"), Params: q("ParamPart")})
+	// a diamond-free include fan: two records include the same record, which itself includes another one
+	rec("Audited", nil, F("created", P("int64")), F("modified", P("int64")))
+	rec("Entity", []string{"Audited"}, F("urn", P("string")))
+	rec("Person", []string{"Entity"}, F("name", P("string")), Opt("nick", P("string")))
+	rec("Company", []string{"Entity"}, F("ticker", P("string")), Opt("employees", A(R(q("Person")))))
 	rec("Deep", nil, F("refs", R(q("Refs"))), F("cont", R(q("Containers"))), Opt("top", R(q("Top"))), F("mm", M(R(q("Top")))), F("ua", A(R(q("U")))))
 	return s
 }
